@@ -683,3 +683,108 @@ func genLoopMagnet(r *Rng, idx int, tier string, step func(op string) string) {
 		step("diskcheck final=1")
 	}
 }
+
+func init() {
+	register(&Suite{Name: "private", NewStepper: newLoopStepper, GenStep: genPrivate})
+}
+
+// genPrivate: private (and, for contrast, public) torrents exposed to peer-exchange messages, DHT results,
+// port messages, extension handshakes advertising PEX, and magnet export requests.
+func genPrivate(r *Rng, idx int, tier string, step func(op string) string) {
+	l := genLayout(r)
+	for l.numPieces() > 4 {
+		l.pl *= 2
+	}
+	private := r.Chance(70)
+	magnet := r.Chance(20)
+	o := step(fmt.Sprintf("new pl=%d files=%s private=%s magnet=%s pex=%s cfg.AllowedFastSet=0 cfg.MaxMetadataSize=40000",
+		l.pl, l.filesArg(), b01(private), b01(magnet), b01(r.Chance(80))))
+	if !strings.HasPrefix(o, "ok") {
+		return
+	}
+	isize := atoi(obsKV(o)["isize"])
+	step("magnet")
+	last := step("start")
+	var dpeers []*scriptPeer
+	nextK := 1
+	pendingMeta := map[int][]int{}
+	do := func(op string) string {
+		last = step(op)
+		absorb(dpeers, last)
+		for _, p := range dpeers {
+			pendingMeta[p.k] = append(pendingMeta[p.k], metaRequests(last, p.k)...)
+		}
+		return last
+	}
+	steps := r.Range(6, 16)
+	for s := 0; s < steps; s++ {
+		if strings.HasPrefix(last, "hang") || strings.HasPrefix(last, "dead") {
+			return
+		}
+		var live []*scriptPeer
+		for _, p := range dpeers {
+			if !p.closed {
+				live = append(live, p)
+			}
+		}
+		roll := r.Intn(100)
+		switch {
+		case roll < 20 || len(live) == 0:
+			if nextK > 6 {
+				continue
+			}
+			p := &scriptPeer{k: nextK, kind: "honest"}
+			nextK++
+			dpeers = append(dpeers, p)
+			o := do(fmt.Sprintf("peer k=%d fast=%s ext=1 dht=%s", p.k, b01(r.Chance(50)), b01(r.Chance(30))))
+			if !strings.HasPrefix(o, "accepted") {
+				p.closed = true
+				continue
+			}
+			exts := "ut_pex:2"
+			if r.Chance(70) {
+				exts = "ut_metadata:3+ut_pex:2"
+			}
+			if r.Chance(85) {
+				do(fmt.Sprintf("msg p=%d t=exths m=%s size=%d", p.k, exts, isize))
+			}
+		case roll < 45:
+			p := live[r.Intn(len(live))]
+			switch r.Intn(3) {
+			case 0:
+				do(fmt.Sprintf("msg p=%d t=pex added=@ dropped=", p.k))
+			case 1:
+				do(fmt.Sprintf("msg p=%d t=pex added=127.0.0.1:0 dropped=@", p.k))
+			default:
+				do(fmt.Sprintf("msg p=%d t=pex added=@+127.0.0.9:1 dropped=@", p.k))
+			}
+		case roll < 55:
+			do("dhtpeers addrs=@")
+		case roll < 62:
+			p := live[r.Intn(len(live))]
+			do(fmt.Sprintf("msg p=%d t=port port=%d", p.k, r.Pick(0, 6881, 65535)))
+		case roll < 70:
+			do("magnet")
+		case roll < 76:
+			do("stop")
+			for _, p := range dpeers {
+				p.closed = true
+			}
+			do("start")
+		default:
+			p := live[r.Intn(len(live))]
+			if q := pendingMeta[p.k]; len(q) > 0 {
+				pendingMeta[p.k] = q[1:]
+				do(fmt.Sprintf("msg p=%d t=metadata i=%d data=true", p.k, q[0]))
+			} else if obsKV(last)["st"] == "Downloading" {
+				if !p.unchoked {
+					do(fmt.Sprintf("msg p=%d t=haveall", p.k))
+					do(fmt.Sprintf("msg p=%d t=unchoke", p.k))
+					p.unchoked = true
+				}
+				honestServe(dpeers, p, 2, step)
+			}
+		}
+	}
+	step("magnet")
+}
